@@ -67,6 +67,14 @@ func trimSuffix(s, p *Term) *Term {
 	return Ite(StrSuffixOf(p, s), StrSubstr(s, IntLit(0), Sub(StrLen(s), StrLen(p))), s)
 }
 
+// pathJoin2: path.Join(a, b) on the arguments the library passes: valid FS paths, or an empty first/second element.
+func pathJoin2(a, b *Term) *Term {
+	empty := StrLit("")
+	return Ite(And(validPath(a), validPath(b)), pjoin(a, b),
+		Ite(And(Eq(a, empty), validPath(b)), b,
+			Ite(And(Eq(b, empty), validPath(a)), a, App("pathJoin2", StringS, a, b))))
+}
+
 func pdir(p *Term) *Term  { return App("pdir", StringS, p) }
 func pbase(p *Term) *Term { return App("pbase", StringS, p) }
 
@@ -86,8 +94,7 @@ func specLib(e *Engine, env *Env, name string, n *ast.CallExpr) (tv, bool) {
 	case "pjoin":
 		return tv{pjoin(argT(0), argT(1)), str}, true
 	case "pathJoin":
-		a, b := argT(0), argT(1)
-		return tv{Ite(And(validPath(a), validPath(b)), pjoin(a, b), App("pathJoin2", StringS, a, b)), str}, true
+		return tv{pathJoin2(argT(0), argT(1)), str}, true
 	case "under":
 		return tv{under(argT(0), argT(1)), nil}, true
 	case "trimPrefix":
@@ -140,16 +147,20 @@ func (x *Exec) stringIntrinsic(fr *Frame, st *State, name string, args []Value, 
 	case "strings.ContainsRune":
 		return []Value{StrContains(t(0), mk("str.from_code", StringS, t(1)))}, true
 	case "strings.TrimLeft", "strings.TrimRight":
-		// only single-character cut sets are used: r is s without the leading/trailing run of c
-		x.trusted("strings.TrimLeft/TrimRight with a one-character cutset: result has no leading/trailing c and s = c^k ++ r (resp. r ++ c^k); k uninterpreted")
+		// cut sets are single characters here ("/" or the separator): r is s without the leading/trailing run of c
+		x.trusted("strings.TrimLeft/TrimRight with a one-character cutset '/' or '\\': s = c^k ++ r (resp. r ++ c^k) with r not starting (ending) with c")
 		s, c := t(0), t(1)
 		r := App("trim|"+name, StringS, s, c)
+		allC := func(p *Term) *Term {
+			return Or(And(Eq(c, StrLit("/")), StrAllChars(p, "/")), And(Eq(c, StrLit("\\")), StrAllChars(p, "\\")),
+				And(Neq(c, StrLit("/")), Neq(c, StrLit("\\")), App("allChar", BoolS, p, c)))
+		}
 		if name == "strings.TrimLeft" {
-			st.assume(And(StrSuffixOf(r, s), Not(StrPrefixOf(c, r)), Implies(Not(StrPrefixOf(c, s)), Eq(r, s)),
-				Implies(Eq(StrLen(c), IntLit(1)), App("allChar", BoolS, StrSubstr(s, IntLit(0), Sub(StrLen(s), StrLen(r))), c))))
+			cut := StrSubstr(s, IntLit(0), Sub(StrLen(s), StrLen(r)))
+			st.assume(And(StrSuffixOf(r, s), Implies(Eq(StrLen(c), IntLit(1)), And(Not(StrPrefixOf(c, r)), allC(cut)))))
 		} else {
-			st.assume(And(StrPrefixOf(r, s), Not(StrSuffixOf(c, r)), Implies(Not(StrSuffixOf(c, s)), Eq(r, s)),
-				Implies(Eq(StrLen(c), IntLit(1)), App("allChar", BoolS, StrSubstr(s, StrLen(r), Sub(StrLen(s), StrLen(r))), c))))
+			cut := StrSubstr(s, StrLen(r), Sub(StrLen(s), StrLen(r)))
+			st.assume(And(StrPrefixOf(r, s), Implies(Eq(StrLen(c), IntLit(1)), And(Not(StrSuffixOf(c, r)), allC(cut)))))
 		}
 		return []Value{r}, true
 	case "strings.ReplaceAll":
@@ -168,7 +179,7 @@ func (x *Exec) stringIntrinsic(fr *Frame, st *State, name string, args []Value, 
 		switch len(es) {
 		case 2:
 			a, b := es[0].(*Term), es[1].(*Term)
-			return []Value{Ite(And(validPath(a), validPath(b)), pjoin(a, b), App("pathJoin2", StringS, a, b))}, true
+			return []Value{pathJoin2(a, b)}, true
 		case 3:
 			a, b, c := es[0].(*Term), es[1].(*Term), es[2].(*Term)
 			if a.Op == "str" && a.Str == "/" {
